@@ -161,6 +161,15 @@ func (e *env) pinFor(c, kind string) *api.Pin {
 	case "rrec", "rdir":
 		p.ReplicationFactorMin, p.ReplicationFactorMax = 1, 1
 		p.Allocations = []peer.ID{e.other}
+	}
+	// a recursive pin may be a depth-limited shard pin (MaxDepth 1 or 2): same abstract kind for the tracker
+	if (kind == "rec" || kind == "rrec") && e.rng.Intn(4) == 0 {
+		p.Type = api.ShardType
+		p.MaxDepth = api.PinDepth(1 + e.rng.Intn(2))
+		ref := e.names.Cid("prev-" + c)
+		p.Reference = &ref
+	}
+	switch kind {
 	case "meta":
 		p.Type = api.MetaType
 		ref := e.names.Cid("cdag-" + c)
